@@ -471,7 +471,7 @@ func runC04(c *vk.Ctx) {
 	// (a merge introduction can only be gated in runs where a FILE merge happens: double weight)
 	gates := []string{"remove", "merge-intro", "persist-swap", "none", "close-in-merge", "merge-intro", "close-in-persist"}
 	for i := 0; i < n; i++ {
-		cases = append(cases, c04Case{Seed: vk.SubSeed(c.Seed, fmt.Sprintf("c04-%d", i)), Dir: c.TempDir("c04-"), SegVer: 1 /* ice v2 shares one stored-field buffer per segment (known finding of C15): readers beside a running merge are judged on v1 */, Loader: []string{"mmap", "mmap", "nommap"}[i%3], Gate: gates[i%len(gates)], Unsafe: gates[i%len(gates)] == "close-in-persist" || i%11 == 10})
+		cases = append(cases, c04Case{Seed: vk.SubSeed(c.Seed, fmt.Sprintf("c04-%d", i)), Dir: c.TempDir("c04-"), SegVer: 1 /* ice v2 shares one stored-field buffer per segment (known finding of C15): readers beside a running merge are judged on v1 */, Loader: []string{"mmap", "mmap", "nommap"}[i%3], Gate: gates[i%len(gates)], Unsafe: gates[i%len(gates)] == "close-in-persist" || i%4 == 3})
 	}
 	results := vk.RunChildren(c.Scratch(), "c04run", cases, vk.ChildOpts{PerChild: 2, Parallel: runtime.NumCPU(), CaseTimeout: 120 * time.Second, RlimitMB: 4096})
 	for i, res := range results {
